@@ -31,8 +31,8 @@ structure Entry where
   exactLen : Option Nat := none
   deriving Repr
 
-private def echo : List (String × Fld) := [("id", .u16 4), ("seq", .u16 6)]
-private def tstamp : List (String × Fld) :=
+def echo : List (String × Fld) := [("id", .u16 4), ("seq", .u16 6)]
+def tstamp : List (String × Fld) :=
   [("id", .u16 4), ("seq", .u16 6), ("orig", .u32 8), ("recv", .u32 12), ("xmit", .u32 16)]
 
 def icmp4Table : List Entry := [
@@ -73,7 +73,7 @@ def icmp4Table : List Entry := [
   { type := 14, code := 0, kind := "TimestampReply", sub := "", fields := tstamp, exactLen := some 20 }
 ]
 
-private def ptr32 : List (String × Fld) := [("ptr", .u32 4)]
+def ptr32 : List (String × Fld) := [("ptr", .u32 4)]
 
 def icmp6Table : List Entry := [
   { type := 1, code := 0, kind := "DestinationUnreachable", sub := "NoRoute", fields := [] },
@@ -115,7 +115,7 @@ def icmp6Table : List Entry := [
 
 /-- the entry of a (type, code) pair, if the pair has a typed view. -/
 def lookup (tbl : List Entry) (t c : Nat) : Option Entry :=
-  tbl.find? fun e => e.type = t ∧ e.code = c
+  tbl.find? fun e => t = e.type ∧ c = e.code
 
 /-- the view a table prescribes for a message (of at least 8 bytes). -/
 def view (tbl : List Entry) (m : Bytes) : View :=
@@ -125,11 +125,11 @@ def view (tbl : List Entry) (m : Bytes) : View :=
     { kind := "Unknown", sub := "",
       fields := [("type", .n (bAt m 0)), ("code", .n (bAt m 1)), ("b58", .b (sub m 4 4))] }
 
+/-- the exact message size prescribed for a (type, code) pair, if any. -/
+def exactOf (tbl : List Entry) (t c : Nat) : Option Nat := (lookup tbl t c).bind (·.exactLen)
+
 /-- header length: 8, or the whole fixed size for fixed-size messages. -/
-def headerLen (tbl : List Entry) (m : Bytes) : Nat :=
-  match lookup tbl (bAt m 0) (bAt m 1) with
-  | some e => e.exactLen.getD 8
-  | none => 8
+def headerLen (tbl : List Entry) (m : Bytes) : Nat := (exactOf tbl (bAt m 0) (bAt m 1)).getD 8
 
 /-- why a byte string is not a message of the table's protocol. -/
 inductive Reject | tooShort (need len : Nat) | notExact (need len : Nat) | tooLong (max len : Nat)
@@ -144,12 +144,15 @@ def check (tbl : List Entry) (maxLen : Option Nat) (m : Bytes) : Option Reject :
     match maxLen.filter (fun mx => mx < m.length) with
     | some mx => some (.tooLong mx m.length)
     | none =>
-      match lookup tbl (bAt m 0) (bAt m 1) with
-      | some e =>
-        match e.exactLen with
-        | some n => if m.length ≠ n then some (.notExact n m.length) else none
-        | none => none
+      match exactOf tbl (bAt m 0) (bAt m 1) with
+      | some n => if m.length ≠ n then some (.notExact n m.length) else none
       | none => none
+
+/-- the two numbers every reject carries: the length that was needed and the length found. -/
+def Reject.needLen : Reject → Nat × Nat
+  | .tooShort n l => (n, l)
+  | .notExact n l => (n, l)
+  | .tooLong n l => (n, l)
 
 def icmp6MaxLen : Nat := 2 ^ 32 - 1
 
